@@ -156,7 +156,7 @@ def hyp_shard(part, tier, shard, nshards, seed, stats, deadline, known, examples
     stats.done += done
 
 
-MEM_LIMIT = int(os.environ.get("VERIF_MEM_GB", "5")) << 30
+MEM_LIMIT = int(os.environ.get("VERIF_MEM_GB", "3")) << 30
 
 
 def run_task(args):
